@@ -605,6 +605,7 @@ class Executor(object):
         # 1. invariant holds on entry
         c0 = self.ctx(st, i=z3.IntVal(0), seq=it, pre_env=pre_env)
         c0.loop_pre_heap = pre_heap_loop
+        c0.outer = list(st.loop_idx)
         inv0 = spec.inv(c0)
         st.pc += c0.extra
         for (label, f) in inv0:
@@ -630,6 +631,7 @@ class Executor(object):
             body_st.loop_idx = st.loop_idx + [i]
             ci = self.ctx(body_st, i=i, seq=it, pre_env=pre_env)
             ci.loop_pre_heap = pre_heap_loop
+            ci.outer = list(st.loop_idx)
             for (label, f) in spec.inv(ci):
                 body_st.pc.append(f)
             body_st.pc += ci.extra
@@ -658,6 +660,7 @@ class Executor(object):
                     stx = out[1]
                     cn = self.ctx(stx, i=i + 1, seq=it, pre_env=pre_env)
                     cn.loop_pre_heap = pre_heap_loop
+                    cn.outer = list(st.loop_idx)
                     invs = spec.inv(cn)
                     stx.pc += cn.extra
                     for (label, f) in invs:
@@ -677,6 +680,7 @@ class Executor(object):
         after.pc.append(n_len >= 0)
         ce = self.ctx(after, i=n_len, seq=it, pre_env=pre_env)
         ce.loop_pre_heap = pre_heap_loop
+        ce.outer = list(st.loop_idx)
         for (label, f) in spec.inv(ce):
             after.pc.append(f)
         after.pc += ce.extra
